@@ -201,8 +201,19 @@ def include_order_hover(root: str):
 def include_search_order(tier: str):
     """a header that exists in the including file's directory and in two configured include directories: which one is
     read must not depend on the interpreter's hash seed (a separate interpreter per seed)"""
+    total = 0
+    # second layout: the header is only in the two configured directories (not next to the including file)
+    for files in (INCLUDE_ORDER_FILES, {k: v for k, v in INCLUDE_ORDER_FILES.items() if k != "src/defs.h"}):
+        w, n = _include_search_order(tier, files)
+        total += n
+        if w:
+            return w, total
+    return None, total
+
+
+def _include_search_order(tier: str, files: dict):
     from replay.harness import Workspace
-    ws = Workspace(INCLUDE_ORDER_FILES)
+    ws = Workspace(files)
     try:
         seen = {}
         seeds = range(12) if tier == "thorough" else range(6)
@@ -214,7 +225,7 @@ def include_search_order(tier: str):
                 raise RuntimeError(f"include-order subprocess failed: {r.stderr[-600:]}")
             seen.setdefault(r.stdout.strip(), []).append(hs)
         if len(seen) > 1:
-            return {"files": INCLUDE_ORDER_FILES, "query": "hover on ax (src/a.F90 line 3)",
+            return {"files": files, "query": "hover on ax (src/a.F90 line 3)",
                     "answers_by_PYTHONHASHSEED": {k[:160]: v for k, v in seen.items()}}, len(seeds)
         return None, len(seeds)
     finally:
